@@ -309,6 +309,8 @@ class C08Session:
                        "abort_in_registry": 0, "pooled_explicit_first": 0,
                        "expr_zero_skipped": 0, "psi_pairs": 0}
         self.counts = {}
+        self.itmd_fp = {}
+        self.abort_n = []
         self._objs = None
 
     # ---------------------------------------------------------------- helpers
@@ -333,8 +335,7 @@ class C08Session:
         """resolve an index token through the registry"""
         from adcgen.indices import get_symbols
         name, _, spin = tok.partition(":")
-        return get_symbols([name], spin if spin else None)[0] if not spin else \
-            get_symbols([name], spin)[0]
+        return get_symbols([name], spin or None)[0]
 
     def mk_atom(self, a):
         from adcgen.sympy_objects import (AntiSymmetricTensor, Amplitude, SymmetricTensor,
@@ -374,6 +375,31 @@ class C08Session:
             return None
 
     # ---------------------------------------------------------------- oracles
+    def same_value_all_indices(self, x, y):
+        """two structurally different expressions: equal as tensor expressions, i.e. for
+        every assignment of *all* their indices?  (The library does not reduce tensors
+        that vanish by their own symmetry, e.g. d^{j}_{j} with bra-ket antisymmetry, so
+        +d^{j}_{j} and -d^{j}_{j} are both legitimate outcomes.)"""
+        from sympy import zoo, nan
+        if x.has(zoo, nan) or y.has(zoo, nan):
+            return False
+        idx = tuple(sorted(x.atoms(self.Index) | y.atoms(self.Index),
+                           key=lambda s: (self.key_of(s), _suffix(s.name), s.name,
+                                          s.dummy_index)))
+        fx, fy = self.fp_all(x, idx), self.fp_all(y, idx)
+        self.probes["structural_diff"] = self.probes.get("structural_diff", 0) + 1
+        return fx is not None and fx == fy
+
+    def fp_all(self, expr, idx):
+        from .tensor_model import fingerprint, NotEvaluable
+        try:
+            h, _ = fingerprint(expr, idx, model_seeds=(self.params["model_seed"], 77),
+                               n_occ=self.params["n_occ"], n_virt=self.params["n_virt"],
+                               rng_seed=self.params["model_seed"], limit=48)
+            return h
+        except (NotEvaluable, ZeroDivisionError):
+            return None
+
     @staticmethod
     def key_of(idx):
         a = idx.assumptions0
@@ -576,7 +602,7 @@ class C08Session:
             want = want.xreplace({p: q, q: p})
         if len(perms) >= 2 and len({x for pq in perms for x in pq}) < 2 * len(perms):
             self.probes["permute_noncommuting"] += 1
-        if got != want:
+        if got != want and not self.same_value_all_indices(got, want):
             self.viol("rename", "b-permute", f"permute{[(str(p), str(q)) for p, q in perms]} "
                       f"of {sl['expr']} gave {got}, sequential transpositions give {want}")
         return {"permute": str(got)}
@@ -671,7 +697,10 @@ class C08Session:
         sl = self._slot(st)
         if sl is None:
             return {"skip": True}
-        pairs = self._resolve_map(st["map"], sl)
+        if "pairs" in st:
+            pairs = [(self.sym(o), self.sym(n)) for o, n in st["pairs"]]
+        else:
+            pairs = self._resolve_map(st["map"], sl)
         if not pairs:
             return {"skip": True}
         m = dict(pairs)
@@ -699,7 +728,9 @@ class C08Session:
         ordered = order_substitutions(dict(pairs))
         got = sl["expr"].subs(ordered)
         want = sl["expr"].xreplace({o: n for o, n in m.items()})
-        if got != want:
+        if got != want and self.same_value_all_indices(got, want):
+            pass
+        elif got != want:
             self.viol("rename", "a-simultaneous",
                       f"subs(order_substitutions({[(str(o), str(n)) for o, n in pairs]})) of "
                       f"{sl['expr']} gave {got}; simultaneous substitution gives {want}")
@@ -834,7 +865,9 @@ class C08Session:
             return {"energy": str(e)}
         if which == "amplitude":
             names = [("ijab", "pphh"), ("klcd", "pphh"), ("ia", "ph"), ("jb", "ph")][pick % 4]
-            a = gs.amplitude(1 + (pick // 4) % 2, names[1], names[0])
+            if self.params.get("variant") == "re":  # RE doubles residuals cost seconds
+                names = [("ia", "ph"), ("jb", "ph")][pick % 2]
+            a = gs.amplitude(1, names[1], names[0])
             return {"amplitude": str(a)[:200]}
         if which == "expand_itmd":
             from adcgen import Intermediates
@@ -846,8 +879,16 @@ class C08Session:
             before_names = {k: set(v) for k, v in self.model.known.items()}
             from adcgen.indices import get_symbols
             tg = get_symbols(idx)
-            ex = itmd.expand_itmd(idx, fully_expand=bool(pick % 2))
+            full = bool(pick % 2)
+            ex = itmd.expand_itmd(idx, fully_expand=full)
             sy = ex.sympy
+            f = self.fp(sy, tuple(tg))
+            if f is not None:
+                first = self.itmd_fp.setdefault((name, full), (idx, f))
+                if first[1] != f:
+                    self.viol("rename", "c-value", f"{name}.expand_itmd({idx}) has a different "
+                              f"value (as a function of its targets) than "
+                              f"{name}.expand_itmd({first[0]}): {sy}")
             for s in sy.atoms(self.Index):
                 if s in tg:
                     continue
@@ -908,6 +949,7 @@ class C08Session:
                         self.injector = runtime.Injector()
                     mode = self.params.get("abort_mode", "state")
                     n = runtime.count_in_twin(self.injector, mode, lambda: self.do_step(st))
+                    self.abort_n.append(n)
                     if n <= 0:
                         self.fault_missed += 1
                         ev["out"] = self.do_step(st)
@@ -1015,6 +1057,7 @@ def execute(job):
         "violations": sess.violations,
         "stats": {"model": sess.model.stats, "probes": sess.probes, "ops": sess.counts,
                   "faults_fired": sess.fault_fired, "faults_missed": sess.fault_missed,
+                  "abort_n": sess.abort_n,
                   "latent_states": sum(1 for e in sess.events if "latent" in e),
                   "clock": {"calls": clock.calls, "lo": clock.lo, "hi": clock.hi,
                             "callers": sorted(clock.callers)},
